@@ -10,7 +10,7 @@ CONSTANTS
   HistViews = FALSE
   OrderedBegin = FALSE
 VIEW View0
-INVARIANTS TypeOK RingConsistent InOrder NoDirty PrefixRule CompleteKF AtomicKF CleanupSafe SeekConsistentKF SeekKFExact EmitState
+INVARIANTS TypeOK RingConsistent InOrder NoDirty PrefixRule CompleteKF AtomicKF CleanupSafe SeekConsistent SeekNoDirty EmitState
 PROPERTIES Stable
 ACTION_CONSTRAINT Emit
 CHECK_DEADLOCK FALSE
